@@ -247,6 +247,7 @@ type Block struct {
 	Votes       []types.VoteInfo     // last commit info
 	Misbehavior []types.Misbehavior  // evidence
 	Time        time.Time
+	MaxTxBytes  int64 // size limit handed to the proposer (0 = the genesis MaxBlockSize): a mempool batch that does not fit is cut
 	full        [][]byte // txs including system txs, fixed by the proposer
 }
 
@@ -308,8 +309,12 @@ func (n *Node) Exec(b *Block, path Path, hook Hook) (res *Result) {
 	}
 	if path == PathPropose {
 		call()
+		maxTxBytes := int64(n.Doc.Consensus.Parameters.MaxBlockSize)
+		if b.MaxTxBytes > 0 {
+			maxTxBytes = b.MaxTxBytes
+		}
 		pr := n.Mux.PrepareProposal(types.RequestPrepareProposal{
-			MaxTxBytes:      int64(n.Doc.Consensus.Parameters.MaxBlockSize),
+			MaxTxBytes:      maxTxBytes,
 			Txs:             b.Txs,
 			LocalLastCommit: types.ExtendedCommitInfo{Votes: extVotes},
 			Misbehavior:     b.Misbehavior,
